@@ -18,19 +18,30 @@ RULE = ("cases = scenarios over the real client and server ends (tproxy method):
         "scenario uses MAX_CHANNEL in {2,3,4,6}; non-trivial = at least two distinct oracle events; "
         "distinct = distinct (cfg, step list)")
 MANIFEST = dict(
-    level_text=("Machine-checked Lean 4 theorems over a statement-by-statement model of onaccept_udp/udp_done/"
-                "expire_connections, udp_open/udp_req/UdpProxy and the header codec: 'ip,port,'+payload splits back "
-                "to exactly (ip, port, payload) for every payload (C11_hdr_roundtrip); one UDP_DATA frame and one "
-                "sendto with identical payload and the original destination per captured datagram, one frame and one "
-                "local datagram per remote reply (C11_one_to_one); one id hence one server socket per source, distinct "
-                "sources distinct ids (C11_one_socket_per_source); exact expiry semantics incl. CLOSE/OPEN ordering "
-                "(C11_expiry). Tied to the code on every run by a differential run of the real code on fake sockets "
-                "plus an implementation-level oracle."),
-    level_note=("Trusted: Lean kernel; three standard axioms; harness fakes; tunnel as FIFO of frames (C07). Expiry is "
-                "lazy (runs inside accept events): an overdue association that sees traffic before any sweep is "
-                "refreshed, not reopened. Id reuse within one server round / with frames in flight breaks the server "
-                "or misdelivers for small MAX_CHANNEL (known finding). Server sendto() errors are modelled as 'any errno: logged, the association and its socket stay' (srvGot's UDP_DATA branch records the outcome and changes nothing else); the corpus drives errnos inside and outside NET_ERRS followed by more traffic on the same association (next loop pass and same batch) and replies. IP_TRANSPARENT bind is the kernel's."),
-    technique="Lean 4 proof (codec round trip, invariants by induction over step lists) + differential correspondence",
+    level_text=("Machine-checked Lean 4 theorems (core only) over a statement-by-statement model of onaccept_udp/udp_done/"
+                "expire_connections, udp_open/udp_req/UdpProxy, the server round + sweep and the header codec, for ALL scripts: "
+                "(C11_hdr_roundtrip) 'ip,port,'+payload splits back to exactly (ip, port, payload) for every payload; "
+                "(C11_one_association_per_source) for every sequence of client events with arbitrary clock readings and incoming "
+                "frames, a source whose association has not reached its deadline keeps the SAME id, so all its datagrams in "
+                "between are queued on it without a new UDP_OPEN; (C11_batch_one_socket / C11_send_error_keeps_association) on the "
+                "server every datagram of an id leaves through the id's one socket, exactly one sendto per frame with identical "
+                "payload and original destination, and a failing sendto of ANY errno changes nothing but the log — handler, "
+                "socket, id map and channels stay; one frame and one local datagram from the replying host per remote reply "
+                "(C11_one_to_one_*); (C11_expiry, C11_close_both_ends) the client's lazy sweep removes exactly the overdue "
+                "associations with one UDP_CLOSE each and, after that frame is processed and the round's sweep has run, neither "
+                "side holds the id; (C11_one_clock + pin of every clock read) deadlines are written and compared in one clock "
+                "domain. Tied to the code on every run by a differential run of the real code on fake sockets plus an "
+                "implementation-level oracle."),
+    level_note=("Trusted: Lean kernel; three standard axioms; harness fakes; tunnel as FIFO of frames (C07). Expiry is lazy (runs "
+                "inside accept events): an overdue association that sees traffic before any sweep is refreshed, not reopened "
+                "(C11_refresh_before_sweep). 'Distinct sources get distinct ids' is proved for one allocation under TablesInChans "
+                "(C11_one_socket_per_source_partial); that invariant's preservation is checked by the oracle, not proved. Id reuse "
+                "within one server round / with frames in flight breaks the server or misdelivers for small MAX_CHANNEL (known "
+                "finding F19; C11_close_both_ends states the precondition). Server sendto() errors are modelled as 'any errno: "
+                "logged, the association and its socket stay'; the corpus drives errnos inside and outside NET_ERRS followed by "
+                "more traffic on the same association. Which clock a read uses is a pin on the source (Gen.C11.CLOCK_READS). "
+                "IP_TRANSPARENT bind is the kernel's."),
+    technique="Lean 4 proof (codec round trip, invariants by induction over step lists and frame batches) + differential correspondence",
 )
 DRIVER_TARGETS = ['SshuttleModel.Code.DgramSys', 'SshuttleModel.Gen.C10', 'SshuttleModel.Gen.C11']
 EXTRA_TARGETS = DRIVER_TARGETS
